@@ -1,6 +1,8 @@
 // witness: instantiates the tensor indexing / view / reshape templates for ranks 1..5 (parsed only, never run)
 #include <nano/tensor.h>
+#include <nano/tensor/algorithm.h>
 #include <nano/tensor/integral.h>
+#include <nano/tensor/stack.h>
 
 using namespace nano;
 
@@ -138,4 +140,17 @@ void witness_integral(tensor_cmap_t<int8_t, 1> a1, tensor_map_t<int32_t, 1> b1, 
     integral(a3, b3);
     integral(f2, d2);
     integral(i2, o2);
+}
+
+// gathers, in-place compaction and stacking
+void witness_algorithms(tensor_mem_t<double, 1>& t1, tensor_mem_t<double, 2>& t2, tensor_mem_t<int, 3>& t3, indices_cmap_t indices,
+                        const tensor_mem_t<double, 1>& flags, const tensor_mem_t<double, 2>& m1, const tensor_mem_t<double, 2>& m2)
+{
+    (void)t1.indexed(indices);
+    (void)t2.indexed(indices);
+    (void)t3.indexed<double>(indices);
+    (void)remove_if([&](const tensor_size_t i) { return flags(i) > 0.0; }, t1);
+    (void)remove_if([&](const tensor_size_t i) { return flags(i) > 0.0; }, t1, t2);
+    (void)stack<double>(tensor_size_t{5}, t1, flags);
+    (void)stack<double>(tensor_size_t{4}, tensor_size_t{4}, m1, m2, t1);
 }
